@@ -34,6 +34,36 @@ def faultRead (bytes : Bytes) (fa : Option Nat) (kind : IoKind := .injected) : S
         | (.ok (.ok (_, res)), d') => go (i + 1) n d' (acc ++ s!" {i}={showOutBytes res}")
     go 0 a.files.length d s!"open=ok n={a.files.length}"
 
+/-- the class of an error as the harness prints it (`err:io:injected`) -/
+def clsC (e : ZErr) : String := (Out.className e).replace " " ":"
+
+/-- `fault.stream`: the entry loop of `read_zipfile_from_stream` under per-entry consumers, ONE model call
+(`streamEntryC`) per implementation call, the device threaded through — so the outcomes of the calls before an error
+stay visible, as they are to the caller.  At most 64 entries are handed out (the harness stops there too). -/
+def faultStream (bytes : Bytes) (ext : Ext) (cs : Array Consume) (dflt : Consume) (fa : Option Nat) (kind : IoKind) : String :=
+  let fin (acc : List String) (d : Dev) : String := " ".intercalate (acc.reverse ++ [s!"ncalls={d.calls}"])
+  let rec go (fuel i : Nat) (d : Dev) (acc : List String) : String :=
+    match fuel with
+    | 0 => fin acc d
+    | fuel + 1 =>
+      match streamEntryC ext ((cs[i]?).getD dflt) fa d with
+      | (.err e, d') => fin (s!"{i}={clsC e}" :: acc) d'
+      | (.panic _, _) => "panic"
+      | (.ok none, d') => fin ("end" :: acc) d'
+      | (.ok (some (f, res)), d') => go fuel (i + 1) d' (s!"{i}={toHex f.fileName}:{showOutBytes res}" :: acc)
+  go 64 0 (Dev.ofBytesK bytes kind) []
+
+/-- the consumers of a `fault.stream` / `fault.visit` line: everyone asks for `consume` decoded bytes; `pulled=` /
+`cbuf=` per entry (measured by the harness on the fault-free run for compressed entries), default: pulls what it
+asks for, in reads of at most 64 KiB (exact for Stored entries) -/
+def consumersOf (a : Args) : Option (Array Consume × Consume) := do
+  let k ← a.nat? "consume"
+  let pulled := ((a.get? "pulled").bind natList?).getD []
+  let cbuf := ((a.get? "cbuf").bind natList?).getD []
+  let cs := (List.range pulled.length).map fun i =>
+    ({ k, pulled := pulled.getD i k, chunk := cbuf.getD i 65536 } : Consume)
+  some (cs.toArray, { k, pulled := k, chunk := 65536 })
+
 def opFault (op : String) (a : Args) : Option String := do
   let fa : Option Nat := match a.get? "k" with
     | some "none" | none => none
@@ -42,7 +72,11 @@ def opFault (op : String) (a : Args) : Option String := do
     | none => some .injected
     | some n => parseKind n)
   match op with
-  | "fault.enc" | "fault.writec" | "fault.writeo" | "fault.rawcopy" | "fault.stream" => some "oracle-only"   -- cipher / codec layers are external: judged by the oracle alone
+  | "fault.enc" | "fault.writec" | "fault.writeo" | "fault.rawcopy" | "fault.streamo" => some "oracle-only"   -- cipher / codec layers are external: judged by the oracle alone
+  | "fault.stream" =>
+    let (cs, dflt) ← consumersOf a
+    let codec := (a.get? "codec").getD "-"
+    some (faultStream (← a.hex? "bytes") (mkExtB (parseCodec codec) (parseBefore codec)) cs dflt fa kind)
   | "fault.read" => some (faultRead (← a.hex? "bytes") fa kind)
   | "fault.write" =>
     let calls := ((a.get? "calls").getD "").splitOn ";"
